@@ -99,6 +99,12 @@ pub fn usable_collateral(w: &World, b: usize) -> bool {
     bank.config.risk_tier == RiskTier::Collateral && fx(&bank.config.asset_weight_init.value) > zero() && bank.config.operational_state == BankOperationalState::Operational && bank.config.asset_tag <= 1
 }
 
+/// like `usable_collateral`, also admitting pass-through (venue) banks
+pub fn usable_collateral_any(w: &World, b: usize) -> bool {
+    let bank = w.bank(b);
+    bank.config.risk_tier == RiskTier::Collateral && fx(&bank.config.asset_weight_init.value) > zero() && bank.config.operational_state == BankOperationalState::Operational && (bank.config.asset_tag <= 1 || w.banks[b].kamino.is_some())
+}
+
 pub struct Lev {
     pub acct: usize,
     pub user: usize,
@@ -126,7 +132,7 @@ pub async fn setup_leveraged(w: &mut World, m: &mut Mon, r: &mut R, g: usize, le
         }
     }
     let dep = pick(r, &[1_000_000u64, 50_000_000, 1 << 30, fund / 8]);
-    let i = w.ix_deposit(a, ca, auth.pubkey(), w.ta_of(a, ca), dep, None);
+    let i = w.ix_deposit_any(a, ca, auth.pubkey(), w.ta_of(a, ca), dep);
     if !w.exec(m, &[i], &[&auth]).await.ok() {
         return None;
     }
